@@ -153,15 +153,19 @@ def minimise(rp, budget_s=60.0, log=None):
                 choices, best_run = trim(c2), r
         i += 1
     r = test(scen, choices)
+    fallback = False
     if r is None:
-        raise HarnessError('minimised trace lost the violation')
+        # state carried from one run to the next inside this interpreter made an intermediate candidate pass:
+        # fall back to the trace as recorded (the caller verifies the result in a fresh interpreter anyway)
+        scen, choices, fallback = rp['scenario'], base.sched.log, True
+        r = test(scen, choices) or base
     best_run = r
     v = next(v for v in best_run.violations if v.cls == cls)
     out = dict(rp)
     out.update({'scenario': scen, 'choices': choices, 'violation': v.to_json(),
                 'event_digest': best_run.digest(), 'n_events': len(best_run.events),
                 'minimised': {'candidates_tried': tried, 'choices_before': len(rp['choices']),
-                              'choices_after': len(choices)}})
+                              'choices_after': len(choices), 'fell_back_to_recorded_trace': fallback}})
     if log:
         log(f'minimised: {tried} candidates, choices {len(rp["choices"])} -> {len(choices)}')
     return out
